@@ -35,18 +35,16 @@ Theorem pending_progress inproc s t :
   tmeasure (tstep inproc true s (TRecv Cl)) < tmeasure s \/ tmeasure (tstep inproc true s (TConsume Cl)) < tmeasure s.
 Proof.
   full_destruct s. unfold Pending. cbn. intros [-> [-> [-> [-> [H H']]]]].
-  assert (Hconn : connected inproc true
-            {| e_state := SEst; e_open := cop; e_byremote := cbr; e_eofseen := ceo; e_rcv := true; e_cancel := false;
-               e_ses := cse; e_buf := cbf; e_delivered := cdl |}
-            {| w_before := cb; w_marker := MTerm t; w_after := caf; w_eof := cef |} = true).
-  { unfold connected; cbn. destruct inproc.
-    - destruct (H' eq_refl) as [-> | ->]; cbn; [reflexivity|]. rewrite !orb_true_r. reflexivity.
-    - destruct (H eq_refl) as [-> ->]. reflexivity. }
-  unfold tstep, recv_step, established. cbn [ep wire_to e_rcv e_cancel e_state negb]. rewrite Hconn. cbn [negb].
-  unfold set_side, set_wire, upd_e, tmeasure; cbn.
-  destruct cb as [|k]; cbn; [left; destruct inproc; cbn; lia|].
-  destruct (Nat.leb_spec cbf cp); [left; cbn; lia|].
-  right. destruct cbf; [lia|]. cbn; lia.
+  assert (Fin : forall X : tst -> Prop, True) by auto. clear Fin.
+  destruct inproc.
+  - destruct (H' eq_refl) as [-> | ->]; unfold_step; cbn; rewrite ?orb_true_r; cbn;
+      (destruct cb as [|k]; cbn; [left; unfold tmeasure; cbn; lia|];
+       destruct (Nat.leb_spec cbf cp); [left; unfold tmeasure; cbn; lia|];
+       right; destruct cbf; [lia|]; unfold tmeasure; cbn; lia).
+  - destruct (H eq_refl) as [-> ->]. unfold_step; cbn.
+    destruct cb as [|k]; cbn; [left; unfold tmeasure; cbn; lia|].
+    destruct (Nat.leb_spec cbf cp); [left; unfold tmeasure; cbn; lia|].
+    right. destruct cbf; [lia|]. unfold tmeasure; cbn; lia.
 Qed.
 
 (* the serving goroutine always reaches the end of its termination sequence *)
@@ -63,7 +61,7 @@ Proof.
   - subst. destruct src.
     + right. unfold_step; cbn. unfold tmeasure; cbn. lia.
     + left. unfold_step; cbn. unfold tmeasure; cbn. lia.
-  - left. unfold_step; cbn. destruct sop; [destruct inproc|]; unfold tmeasure; cbn; lia.
+  - left. unfold_step; cbn. destruct sop, inproc, cop; unfold tmeasure; cbn; lia.
 Qed.
 
 (* ---- the end state ---- *)
@@ -118,7 +116,7 @@ Theorem client_close_releases inproc s :
   let s' := trun inproc true s [TClientClose; TClientStep] in
   capp s' = CClosed /\ e_open (cl s') = false /\ e_rcv (cl s') = false.
 Proof.
-  full_destruct s. cbn. intros -> [-> | ->]; unfold_step; cbn; destruct cop; try destruct inproc; cbn; auto.
+  full_destruct s. cbn. intros -> [-> | ->]; unfold_step; cbn; destruct cop, inproc, sop; cbn; auto.
 Qed.
 
 (* The client's own FinishSession closes its connection when it returns, and so does the
